@@ -12,21 +12,35 @@ def main():
         print('built variant', v, '%.0fs' % (time.time() - t0), flush=True)
     build.ensure_scanner()
     print('built scanner', '%.0fs' % (time.time() - t0), flush=True)
-    drivers = [('p21drv', 'plain', False), ('p21drv', 'san', False)]
-    for extra in (('attrdrv', 'plain', False), ('attrdrv', 'san', False), ('dictdump', 'plain', False), ('lazydrv', 'plain', True),
-                  ('cxdrv', 'san', False), ('instmgr_mc', 'san', False)):
-        if os.path.exists('/verif/drivers/%s.cc' % extra[0]):
-            drivers.append(extra)
+    drivers = [('p21drv', 'plain', False), ('p21drv', 'san', False), ('attrdrv', 'plain', False), ('attrdrv', 'san', False), ('dictdump', 'plain', False),
+               ('lazydrv', 'plain', True), ('lazydrv', 'san', True), ('cxdrv', 'san', False), ('instmgr_mc', 'san', False)]
     for name, v, lazy in drivers:
-        build.driver(name, v, lazy=lazy)
+        if os.path.exists('/verif/drivers/%s.cc' % name):
+            build.driver(name, v, lazy=lazy)
+    build.shim('heapshift')
     print('built drivers', '%.0fs' % (time.time() - t0), flush=True)
-    # schema libraries used by the quick tier (cached by content; rebuilt when generator/headers change)
-    for fam, variants in ((smodel.family_K('fk', pairs='core'), ('plain',)), (smodel.family_I('fi'), ('plain', 'san'))):
+    # schema libraries used by the quick tier (cached by content; rebuilt when generator/headers change).  A library that does not build is
+    # reported by the check that needs it, not here.
+    sys.path.insert(0, '/verif/checks')
+    libs = [(smodel.family_K('fk', pairs='core').express(), ('plain', 'san'), True), (smodel.family_I('fi').express(), ('plain', 'san'), True)]
+    try:
+        import c10, c11, c02, c08
+        libs.append((c10.SCHEMA, ('plain', 'san'), True))
+        libs.append((c11.SCHEMA, ('san',), True))
+        for fam in c02.programs('quick'):
+            libs.append((fam.express(), ('plain',), True))
+            for vname, text in c02.variants(fam):
+                libs.append((text, ('plain',), True))
+        for base, chunk, text in c08.pack(list(c08.graphs('quick'))):
+            libs.append((text, ('san',), False))
+    except Exception as e:
+        print('WARNING: could not enumerate the check schemas:', e)
+    for text, variants, tools in libs:
         for v in variants:
             try:
-                build.schema_lib(fam.express(), v)
+                build.schema_lib(text, v, tools=tools)
             except build.GenError as e:
-                print('WARNING: family %s does not build (%s) - the checks will report it' % (fam.name, e))
+                print('WARNING: a schema library does not build (%s) - the check that needs it will report it' % e)
     print('built schema libraries', '%.0fs' % (time.time() - t0), flush=True)
 
 
